@@ -276,6 +276,18 @@ pub fn walk_blocks(bytes: &[u8]) -> Result<(Trailer, Vec<RawBlock>), String> {
 /// Full conformance decode of a file. `interval` = the in-block index interval the file is
 /// expected to use (None = do not check the slot positions, only their well-formedness).
 pub fn decode_file(bytes: &[u8], interval: Option<usize>) -> Result<Layout, String> {
+    decode_impl(bytes, interval, true)
+}
+
+/// Structure only: trailer, block walk, tree from the root (every block reached exactly once, a
+/// depth per block) and the leaf entries. None of the conformance rules (offset table, index key =
+/// last key of the child, ordering, entry count) is enforced — for checks that only need to know
+/// where the blocks are and must not raise alarms that belong to C09.
+pub fn decode_structure(bytes: &[u8]) -> Result<Layout, String> {
+    decode_impl(bytes, None, false)
+}
+
+fn decode_impl(bytes: &[u8], interval: Option<usize>, strict: bool) -> Result<Layout, String> {
     let trailer = parse_trailer(bytes).ok_or("no valid trailer")?;
     let limit = bytes.len() - trailer.size();
 
@@ -293,7 +305,7 @@ pub fn decode_file(bytes: &[u8], interval: Option<usize>) -> Result<Layout, Stri
     }
 
     // per block checks
-    for b in &blocks {
+    for b in blocks.iter().filter(|_| strict) {
         check_block_table(b, interval)?;
         for w in b.entries.windows(2) {
             if w[0].0 >= w[1].0 {
@@ -353,6 +365,7 @@ pub fn decode_file(bytes: &[u8], interval: Option<usize>) -> Result<Layout, Stri
                 let child = &blocks[ci];
                 match child.entries.last() {
                     Some((lk, _)) if lk == k => {}
+                    _ if !strict => {}
                     other => {
                         return Err(format!(
                             "index block at {} (depth {depth}): key {:?} is not the last key {:?} of child at {child_off}",
@@ -374,6 +387,9 @@ pub fn decode_file(bytes: &[u8], interval: Option<usize>) -> Result<Layout, Stri
     let mut entries = Vec::new();
     for &bi in &by_depth[levels + 1] {
         entries.extend(blocks[bi].entries.iter().cloned());
+    }
+    if !strict {
+        return Ok(Layout { trailer, blocks, entries, by_depth });
     }
     for w in entries.windows(2) {
         if w[0].0 >= w[1].0 {
